@@ -52,6 +52,10 @@ def obligations(tier, seed):
                     ['aabb', 'OP_SIZE'], ['OP_x51'], ['OP_xZZ'], ['0x51'], ['1', 'OP_VERIFY', 'OP_RETURN']):
             add(seq, sv, (1, 1))
             if seq[0] in ('OP_ELSE',): add(seq, sv, (1, 1), vf=(1, 0))
+        # a conditional operation that changes the state, followed by one that fails
+        for seq, vf in ((['1', 'OP_IF', 'OP_RETURN'], (0, None)), (['OP_ENDIF', 'OP_RETURN'], (1, None)), (['OP_ELSE', '9', 'OP_TOALTSTACK', 'OP_DROP', 'OP_VERIFY'], (1, 0)), (['OP_TOALTSTACK', 'OP_NOTIF', 'OP_ELSE', 'OP_FROMALTSTACK', 'OP_FROMALTSTACK', 'OP_FROMALTSTACK'], (0, None)),
+                        (['OP_IF', 'OP_ENDIF', 'OP_ENDIF'], (0, None)), (['OP_ENDIF', 'OP_ENDIF'], (2, 1))):
+            add(seq, sv, (1, 1), vf=vf)
     return obs
 
 def build(ob, V=None):
@@ -127,9 +131,19 @@ def ref_eval(ctx, ob, toks, P):
                 if len(S2.stack) + len(S2.alt) > R.MAX_STACK: r = dict(ok=0, err=R.ERR('STACK_SIZE'))
             r = dict(ok=1, stack=S2.stack, alt=S2.alt, vf=(S2.vf_size, S2.vf_size if S2.vf_ff is None else S2.vf_ff), nop=S2.nop)
             if kind == 'push' and len(v) > R.MAX_ELEM: r = dict(ok=0, err=R.ERR('PUSH_SIZE'))          # element-size limit: applies to every push, executed or not, in every script version
-        if not r['ok']: return dict(ret=0, err=r['err'])
+        if not r['ok']: return dict(ret=0, err=r['err'], alt_before=S.alt, vf_before=(S.vf_size, S.vf_size if S.vf_ff is None else S.vf_ff))
         S.stack = r['stack']; S.alt = r['alt']; S.vf_size = r['vf'][0]; S.vf_ff = None if r['vf'][1] == r['vf'][0] else r['vf'][1]; S.nop = r['nop']
     return dict(ret=1, stack=S.stack, alt=S.alt, vf=(S.vf_size, S.vf_size if S.vf_ff is None else S.vf_ff), nop=z3.simplify(R.B(S.nop, 32)), pos=POS)
+
+def ref_outcome(ctx, ob, toks, P, pre_state):
+    r = ref_eval(ctx, ob, toks, P)
+    if r.get('unchanged'): return dict(ret=0, err='*', state=pre_state, pos=POS)
+    if not r['ret']:
+        # one operation failed: the operations before it have been applied. What the failing operation itself leaves on the stack (OP_EQUALVERIFY has replaced
+        # its operands by then) and in the counter is not prescribed; the conditional state and the alt stack are those reached before it - no failing
+        # operation changes either (seed C16-6 rolled the conditional state back to the one before the exec). An exception is reported as text, its code is not meaningful.
+        return dict(ret=0, err=('*' if r['err'] == R.EXC else r['err']), state=dict(stack='*', alt=r['alt_before'], vf=r['vf_before'], nop='*'), pos=POS)
+    return r
 
 POS = dict(pc=1, script=[0x51, 0x61, 0x52], pend=3, curr_op_seq=1, hist=1, done=0)
 
@@ -150,10 +164,7 @@ def run(E, ob):
         o = impl_outcome(sesslib.engine_reply(E, f, out, 6), None)
         return o
     def ref(ctx):
-        r = ref_eval(ctx, ob, toks, P)
-        if r.get('unchanged'): return dict(ret=0, err='*', state=pre_state, pos=POS)
-        if not r['ret']: return dict(ret=0, err=('*' if r['err'] == R.EXC else r['err']), state='*', pos='*')      # an exception is reported as text, the error code is not meaningful then
-        return r
+        return ref_outcome(ctx, ob, toks, P, pre_state)
     def key(a, b):
         if isinstance(a, (list, tuple)): return 'C16:' + str(a[1])
         return 'C16:%s:%s' % ('+'.join(ob['tokens']) if not (ob['symhex'] or ob['symdec']) else ('symhex' if ob['symhex'] else 'symdec'), 'ret' if a.get('ret') != b.get('ret') else 'state')
@@ -176,10 +187,7 @@ def replay(lib, ob, cex):
     io = impl_outcome(rep, None)
     pre_state = dict(stack=P['stack'], alt=P['alt'], vf=(ob['vf'][0], ob['vf'][0] if ob['vf'][1] is None else ob['vf'][1]), nop=P['nop'])
     def ref(ctx):
-        r = ref_eval(ctx, ob, toks, P)
-        if r.get('unchanged'): return dict(ret=0, err='*', state=pre_state, pos=POS)
-        if not r['ret']: return dict(ret=0, err=('*' if r['err'] == R.EXC else r['err']), state='*', pos='*')      # an exception is reported as text, the error code is not meaningful then
-        return r
+        return ref_outcome(ctx, ob, toks, P, pre_state)
     cases, _ = refexec.explore(ref)
     s = z3.Solver(); s.check(); ro = sesslib.concretize(s.model(), cases[0][1])
     tokstr = ' '.join(bytes(t).decode('latin1') for t in toks)
